@@ -1951,6 +1951,126 @@ def gen_rules():
                "def neighbourOf (left : Nat) (right : Option Nat) (shift : Option Unit) (idx : Nat) : Option Nat :=\n  if %s then none else %s\n" % (c, v))
     return '\n'.join(out)
 
+
+
+# --------------------------------------------------------------------------
+# Cycle: `SimpleCycle` (src/simple_cycle.rs), every method, statement by statement (tools/extract3.py)
+# --------------------------------------------------------------------------
+def gen_cycle():
+    import extract3
+    toks = tokenize(strip_attrs_cfg(read('src/simple_cycle.rs')))
+    structs = {'Cycle': {'ptrs': 'PTRS', 'start': 'N', 'len': 'N'},
+               'CycleIter': {'simple_cycle': 'Cycle', 'next': 'N'}}
+    out = ["namespace Cycle\n"]
+
+    def fn(name):
+        params, body, _ = find_fn(toks, name)
+        ps = params_of(params)
+        blk = parse_body(body)
+        return ps, (blk[0], extract3.unroll_literal_loops(blk[1]), blk[2])
+
+    def args_of(ps):
+        for n, t in ps:
+            if n != 'self' and t != 'usize':
+                raise Unparsed("parameter %s : %s" % (n, t))
+        return [n for n, _ in ps if n != 'self']
+
+    def defn(lean, doc, ps, ret_ty, lines, selfty='Cycle'):
+        names = args_of(ps)
+        sig = ''.join(" (%s : Nat)" % imp.name(n) for n in names)
+        me = " (self_ : %s)" % selfty if any(n == 'self' for n, _ in ps) else ''
+        out.append("/-- `%s` -/\ndef %s%s%s : %s :=\n%s\n" % (doc, lean, me, sig, ret_ty, '\n'.join(lines)))
+
+    imp = extract3.Imp('Cycle', structs, {'contains': 'B'}, 'Cycle.')
+    value = lambda env, v: imp.expr(v, env)[0]
+
+    def ret_self(env, v):
+        if v is not None:
+            raise Unparsed("value returned from a unit method")
+        return 'self_'
+
+    def ret_result(env, v):
+        if v is None:
+            raise Unparsed("try_extend falls off its end")
+        t, ty = imp.expr(v, env)
+        if ty != 'RES':
+            raise Unparsed("try_extend returns %s" % ty)
+        return '(some self_)' if t == 'Ok' else 'none'
+
+    # new
+    ps, blk = fn('new')
+    env = {n: 'N' for n in args_of(ps)}
+    lines = imp.block(blk[1], blk[2], env, lambda env, v: value(env, v), '  ')
+    defn('new', 'SimpleCycle::new', ps, 'Cycle', lines)
+    # contains (before its users)
+    ps, blk = fn('contains')
+    env = dict({n: 'N' for n in args_of(ps)}, self='Cycle')
+    defn('contains', 'SimpleCycle::contains', ps, 'Bool', imp.block(blk[1], blk[2], env, lambda env, v: value(env, v), '  '))
+    # grow, init
+    for name in ('grow', 'init'):
+        ps, blk = fn(name)
+        env = dict({n: 'N' for n in args_of(ps)}, self='Cycle')
+        defn(name, 'SimpleCycle::' + name, ps, 'Cycle', imp.block(blk[1], blk[2], env, ret_self, '  '))
+    # try_extend
+    ps, blk = fn('try_extend')
+    env = dict({n: 'N' for n in args_of(ps)}, self='Cycle')
+    defn('tryExtend', 'SimpleCycle::try_extend` (`Ok(())` = `some` of the new cycle, `Err(())` = `none`)', ps, 'Option Cycle',
+         imp.block(blk[1], blk[2], env, ret_result, '  '))
+    # iter: the iterator starts at ...
+    ps, blk = fn('iter')
+    if blk[1] or blk[2] is None or blk[2][0] != 'struct' or blk[2][3] is not None:
+        raise Unparsed("iter body")
+    fields = dict(blk[2][2])
+    if sorted(fields) != ['next', 'simple_cycle'] or fields['simple_cycle'] != ('path', ['self']):
+        raise Unparsed("iterator fields")
+    t, ty = imp.expr(fields['next'], {'self': 'Cycle'})
+    if ty != 'N':
+        raise Unparsed("iterator start")
+    out.append("/-- `SimpleCycle::iter`: the iterator borrows the cycle and starts at -/\ndef iter (self_ : Cycle) : CycleIter :=\n  { simple_cycle := self_, next := %s }\n" % t)
+    # Iterator::next
+    it = extract3.Imp('CycleIter', structs, {}, '')
+    ps, blk = fn('next')
+    if args_of(ps):
+        raise Unparsed("next takes arguments")
+
+    def ret_next(env, v):
+        if v is None:
+            raise Unparsed("next without value")
+        t, ty = it.expr(v, env)
+        if ty != 'ON':
+            raise Unparsed("next returns %s" % ty)
+        return "(%s, self_)" % t
+    defn('iterNext', 'Iterator::next` of the cycle iterator (item, iterator afterwards)', ps, 'Option Nat × CycleIter',
+         it.block(blk[1], blk[2], {'self': 'CycleIter'}, ret_next, '  '), selfty='CycleIter')
+    out.append("end Cycle")
+    return '\n'.join(out)
+
+
+
+# --------------------------------------------------------------------------
+# Boundary: `ConvexCell::compute_boundary` (greedy reconstruction of the boundary of the removed region)
+# --------------------------------------------------------------------------
+def gen_boundary():
+    import extract3
+    toks = tokenize(strip_attrs_cfg(read('src/voronoi/convex_cell.rs')))
+    params, body, _ = find_fn(toks, 'compute_boundary')
+    ps = params_of(params)
+    if [n for n, _ in ps] != ['boundary', 'vertices'] or 'SimpleCycle' not in ps[0][1] or 'Vertex' not in ps[1][1]:
+        raise Unparsed("parameters of compute_boundary")
+    blk = parse_body(body)
+    imp = extract3.ImpP('Cycle', {'Cycle': {'ptrs': 'PTRS', 'start': 'N', 'len': 'N'}}, {}, '',
+                        elem_fields={'dual': ('dual', 'DUAL')},
+                        mut_methods={'init': ('Gen.Cycle.init', False, 'Cycle'), 'grow': ('Gen.Cycle.grow', False, 'Cycle'),
+                                     'try_extend': ('Gen.Cycle.tryExtend', True, 'Cycle')})
+    env = {'boundary': 'Cycle', 'vertices': 'AV'}
+    imp.fn_name, imp.prefix_params, imp.prefix_args = 'computeBoundary', '{V : Type} (dual : V → Dual)', ' dual'
+    lines = imp.blockP(extract3.stmts_of(blk), env, lambda env2, ind: [ind + "some (boundary, vertices)"], {'panic': 'none', 'brk': None}, '  ')
+    fuels = ''.join(" (fuel%d : Nat)" % (i + 1) for i in range(imp.nfuel))
+    return '\n'.join(imp.aux) + ("\n/-- `ConvexCell::compute_boundary(boundary, vertices)`: `none` = a panic (index out of range, or the assertion\n"
+            "\"No suitable vertex found to extend boundary!\"); `dual` reads the dual triple of a vertex; `fuel…` bound the passes of the `loop`s -/\n"
+            "def computeBoundary {V : Type} (dual : V → Dual)%s (boundary : Cycle) (vertices : Array V) : Option (Cycle × Array V) :=\n%s\n"
+            % (fuels, '\n'.join(lines)))
+
 # --------------------------------------------------------------------------
 FRAGMENTS = [
     # (module name, source files, generator, imports)
@@ -1969,6 +2089,8 @@ FRAGMENTS = [
     ('RightLoc', ['src/voronoi/half_space.rs'], gen_rightloc, ['MVoro.Model.Build', 'MVoro.Gen.Geom']),
     ('Rules', ['src/voronoi/voronoi_cell.rs', 'src/voronoi/convex_cell.rs', 'src/voronoi.rs', 'src/voronoi/voronoi_face.rs'], gen_rules, []),
     ('NN', ['src/rtree_nn.rs'], gen_nn, ['MVoro.Model.Build']),
+    ('Cycle', ['src/simple_cycle.rs'], gen_cycle, ['MVoro.Model.Cycle']),
+    ('Boundary', ['src/voronoi/convex_cell.rs'], gen_boundary, ['MVoro.Model.Clip', 'MVoro.Gen.Cycle']),
     ('Integrals', ['src/voronoi/integrals.rs', 'src/voronoi/voronoi_face.rs'], gen_integrals, ['MVoro.Model.Build', 'MVoro.Gen.Geom']),
 ]
 
